@@ -663,10 +663,11 @@ PROPS["C01"] = {
              "each rendered under TWO random layouts whose images must agree (`layout-diff` otherwise). Corpus: D1, D2, "
              "D3, D6, D7 witnesses, duplicate / undefined / case-differing labels, .orig twice, stack flag."),
     "trusted": [
-        "the harness renderer (enc.rs: AProg::pieces, asmgen.rs: layout, spell_lit) realises the relation `t is a layout of P`",
-        "text-level theorem assemble_image_render is proved for Spec.render (Lace/Spec/Render.lean); that the harness renderer stays inside "
-        "the range of Spec.render is not proved (the driver renders every abstract program under the canonical layout and checks it "
-        "against Spec.Prog.image: `spec-render-mismatch`)",
+        "text-level theorem assemble_image_render is proved for Spec.render (Lace/Spec/Render.lean). That the harness renderer (enc.rs: "
+        "AProg::pieces, asmgen.rs: layout, spell_lit) stays inside the range of Spec.render is CHECKED on every run, not proved: for every "
+        "text of an accepted program the driver reads a layout L off the text (Driver/Layout.lean, untrusted) and evaluates "
+        "`render L P = text and L.ok P` (`outside-render-range` otherwise); it also renders P itself under the canonical layout and "
+        "checks model(render L0 P) = Spec.Prog.image (`spec-render-mismatch`)",
     ],
     "assumptions": [
         "labels are valid label names whatever the stack flag (I13); a label marks a statement of at least one word",
